@@ -72,7 +72,7 @@ pub fn check_pos(ctx: &mut Ctx, mp: &MPos, b: &Board) {
 }
 
 pub fn run(ctx: &mut Ctx) {
-    let n = ctx.budget(100_000, 4_000_000);
+    let n = ctx.budget(1_500_000, 20_000_000);
     let mut src = Sources::standard(n);
     src.three_man = if ctx.tier == crate::ctx::Tier::Thorough && ctx.config != "miri" { u64::MAX } else { n / 5 };
     stream::run(ctx, &src, &mut check_pos);
